@@ -63,6 +63,17 @@ CHECKS = {
             'auxiliary columns. Sampling, not proof.',
             'Tolerance 1e-6 (LP) / 1e-4 (conic) relative; brute force limited to 400 integer points; ECOS failures skipped.',
             'DESIGN.md section 4 / C07'),
+    'C10': ('property-based testing against an independent curvature calculus (accept/reject oracle) plus a semantic oracle: the '
+            'compiled model with variables pinned at sample points is feasible exactly when the written inequality holds under NumPy',
+            'Generated-input search over atom x chain(0-5 steps of scaling incl. zero and negative, negation, left/right addition and '
+            'subtraction of constants/affine expressions) x comparison direction and side x use as constraint or min/max objective, '
+            'for all 21 atoms in ro and dro, plus the bilinear products the statement lists. Unsound acceptance, acceptance followed '
+            'by a crash, and wrong meaning of an accepted constraint/objective are violations; over-rejection is only counted. '
+            'Sampling, not proof.',
+            'The 30-line calculus in vf/props/c10.py is the reference for curvature; feasibility of pinned models decided by HiGHS/ECOS '
+            'with a 0.05 margin around the boundary; E(piecewise) expressions and piecewise functions of random variables are not '
+            'generated here.',
+            'DESIGN.md section 4 / C10'),
 }
 
 NOT_YET = 'check not built yet in this round (see DESIGN.md section 4 for the planned generator and oracle)'
